@@ -362,7 +362,7 @@ pub fn profile(name: &str) -> Profile {
         default_interval_share: 2,
     };
     match name {
-        "C03" => Profile { name: "C03", capacity: "ample", ttl_share: 8, w_advance: 40, w_clear: 3, ..base },
+        "C03" => Profile { name: "C03", capacity: "ample", ttl_share: 7, w_advance: 40, w_clear: 4, ..base },
         "C04" => Profile { name: "C04", ..base },
         "C05" => Profile { name: "C05", ttl_share: 9, w_advance: 36, w_insert: 36, w_if_present: 3, w_getmut: 1, w_lookups: 1, default_interval_share: 3, ..base },
         "C09" => Profile { name: "C09", validators: true, w_if_present: 22, w_insert: 30, w_remove: 10, capacity: "ample", fixed_cost_per_key: false, coster: true, ..base },
